@@ -457,13 +457,16 @@ def x_unlim_extend(w, s):
     def run():
         h = w.da.open_nc(path, mode="a")
         try:
+            kept = h[name]                 # a variable handle obtained before the append and used again after it
             if labs and s.get("label_reads", True):
                 h[name].loc[labs[0]]       # a label look-up through this handle before the dimension grows
+                kept.loc[labs[0]]
             h[name].iloc[index] = val      # .ix would mean labels when indexing.by is 'position'
             if s.get("label_reads", True):
-                seen = h[name].loc[new[-1]]     # ... and the freshly written label must be found through the same handle
-                if not V.same_scalar(seen, vals[-1]):
-                    raise AssertionError("label look-up of the new label %r through the writing handle gives %r, written %r" % (new[-1], seen, vals[-1]))
+                for hv, which in ((h[name], "the writing handle"), (kept, "a variable handle obtained before the append")):
+                    seen = hv.loc[new[-1]]     # ... and the freshly written label must be found through the same file handle
+                    if not V.same_scalar(seen, vals[-1]):
+                        raise AssertionError("label look-up of the new label %r through %s gives %r, written %r" % (new[-1], which, seen, vals[-1]))
             return h[name].read()
         finally:
             h.close()
@@ -534,6 +537,8 @@ def _gen_multi(w, rng):
     specs = [base]
     for i in range(1, n):
         sp = _copy.deepcopy(base)
+        if rng.random() < 0.5 and len(set(tuple(vs["dims"]) for vs in sp["vars"])) == 1:
+            rng.shuffle(sp["vars"])        # the same variables, created in another order (the order of the file's dimensions stays)
         for vs in sp["vars"]:
             shape = [len(sp["dims"][d]) for d in vs["dims"]]
             vs["values"] = V.gen_values(rng, shape, vs["dtype"], cfg["nan_rate"])
@@ -570,6 +575,13 @@ def _gen_multi(w, rng):
         if any(d0 not in vs["dims"] for vs in base["vars"]):
             return None
         st["axis"] = d0
+        if rng.random() < 0.4:
+            allabs = []
+            for sp in specs:
+                allabs.extend(sp["dims"][d0])
+            if len(set(map(repr, allabs))) == len(allabs) and allabs:
+                ks = rng.sample(allabs, rng.randint(1, len(allabs)))   # the joined axis is re-indexed on the keys
+                st["keys"] = ks
     return st
 
 
@@ -605,6 +617,8 @@ def x_multi_read(w, s):
             out = da.stack_ds(singles, axis=s["axis"], keys=keys, align=s["align"], **akw)
         else:
             out = da.concatenate_ds(singles, axis=s["axis"], align=s["align"], **akw)
+            if "keys" in s:
+                out = out.reindex_axis(list(s["keys"]), axis=s["axis"])
         return out[names] if isinstance(names, str) else out
     exp = _guard(expected)
     F.finalize_leaks(w)
